@@ -95,7 +95,7 @@ PROPS = {
     ),
     "C07": dict(
         level="proof",
-        specs=["specs.c07_memory"],
+        specs=["specs.c07_memory", "specs.c14_probe"],
         bounded=["bounded.c07_memory"],
         trusted=["transport (C06) and the machine's memory semantics are assumed for the deductive clauses"],
     ),
